@@ -209,6 +209,24 @@ pub fn parse_bytes(s: &str) -> Result<Vec<u8>, ParseSequenceError> {
 /// The returned result can display a human readable error if the string cannot be parsed as a
 /// valid quoted string.
 pub fn parse_string(s: &str) -> Result<String, ParseSequenceError> {
+    // Triple-quoted literals may contain quote characters of either kind. Strip their
+    // delimiters here; below, every quote character would be taken for the start or the
+    // end of a one-line string.
+    let (raw, rest) = match s.strip_prefix(['r', 'R']) {
+        Some(rest) => (true, rest),
+        None => (false, s),
+    };
+    for delimiter in ["\"\"\"", "'''"] {
+        if rest.len() >= 6 && rest.starts_with(delimiter) && rest.ends_with(delimiter) {
+            let body = &rest[3..rest.len() - 3];
+            return if raw {
+                Ok(body.to_string())
+            } else {
+                parse_triple_quoted_body(s, body)
+            };
+        }
+    }
+
     let mut chars = s.chars().enumerate();
     let res = String::with_capacity(s.len());
 
@@ -392,6 +410,61 @@ fn parse_quoted_string(
         return Err(ParseSequenceError::MissingClosingQuote);
     }
 
+    Ok(res)
+}
+
+/// Decodes the body of a (non-raw) triple-quoted string: escape sequences are interpreted,
+/// every other character -- quotes and line breaks included -- stands for itself.
+fn parse_triple_quoted_body(s: &str, body: &str) -> Result<String, ParseSequenceError> {
+    let mut chars = body.chars().enumerate();
+    let mut res = String::with_capacity(body.len());
+    while let Some((idx, c)) = chars.next() {
+        if c != '\\' {
+            res.push(c);
+            continue;
+        }
+        let invalid = |escape: String| ParseSequenceError::InvalidEscape {
+            escape,
+            index: idx,
+            string: String::from(s),
+        };
+        let (_, c2) = chars.next().ok_or_else(|| invalid(c.to_string()))?;
+        let value = match c2 {
+            'a' => '\u{07}',
+            'b' => '\u{08}',
+            'v' => '\u{0B}',
+            'f' => '\u{0C}',
+            'n' => '\n',
+            'r' => '\r',
+            't' => '\t',
+            '\\' | '?' | '\'' | '"' | '`' => c2,
+            'x' | 'X' | 'u' | 'U' => {
+                let length = match c2 {
+                    'x' | 'X' => 2,
+                    'u' => 4,
+                    _ => 8,
+                };
+                parse_unicode_hex(length, &mut chars).map_err(|source| {
+                    ParseSequenceError::InvalidUnicode {
+                        source,
+                        index: idx,
+                        string: String::from(s),
+                    }
+                })?
+            }
+            n if ('0'..='3').contains(&n) => {
+                parse_unicode_oct(&n, &mut chars).map_err(|source| {
+                    ParseSequenceError::InvalidUnicode {
+                        source,
+                        index: idx,
+                        string: String::from(s),
+                    }
+                })?
+            }
+            _ => return Err(invalid(format!("{}{}", c, c2))),
+        };
+        res.push(value);
+    }
     Ok(res)
 }
 
